@@ -567,7 +567,12 @@ func (f FilterCCITTFax) Encode(v Version, w io.WriteCloser) (io.WriteCloser, err
 	if err := f.validate(v); err != nil {
 		return nil, err
 	}
-	ww, err := ccittfax.NewWriter(w, f.toParams())
+	// Never write more rows than Decode is prepared to read back.
+	params := f.toParams()
+	if maxRows := ccittMaxRows(params.Columns); params.MaxRows <= 0 || params.MaxRows > maxRows {
+		params.MaxRows = maxRows
+	}
+	ww, err := ccittfax.NewWriter(w, params)
 	if err != nil {
 		return nil, err
 	}
@@ -598,6 +603,8 @@ func (f FilterCCITTFax) Decode(_ Version, r io.Reader, budget *membudget.Budget)
 	// cap never truncates a valid image.  The max(1, ...) keeps the bound
 	// self-contained: a width above [limits.MaxImagePixels] would otherwise
 	// floor the row count to zero, which the reader reads as "no limit".
+	// validate, Encode and parseCCITTFax apply the same bound (ccittMaxRows),
+	// so data the library writes is never cut here.
 	cols := max(params.Columns, 1)
 	geoMax := max(1, min(limits.MaxImageHeight, limits.MaxImagePixels/cols))
 	if params.MaxRows <= 0 || params.MaxRows > geoMax {
@@ -620,13 +627,25 @@ func (f FilterCCITTFax) validate(_ Version) error {
 	if f.Columns < 0 || f.Columns > maxDim {
 		return fmt.Errorf("invalid number of columns %d", f.Columns)
 	}
-	if f.Rows < 0 || f.Rows > maxDim {
+	cols := f.Columns
+	if cols == 0 {
+		cols = 1728
+	}
+	if f.Rows < 0 || f.Rows > ccittMaxRows(cols) {
 		return fmt.Errorf("invalid number of rows %d", f.Rows)
 	}
 	if f.DamagedRowsBeforeError < 0 || f.DamagedRowsBeforeError > maxDim {
 		return fmt.Errorf("invalid number of damaged rows %d", f.DamagedRowsBeforeError)
 	}
 	return nil
+}
+
+// ccittMaxRows returns the largest number of rows of a CCITTFax image with
+// the given number of columns: a conforming image has at most
+// [limits.MaxImageHeight] rows and [limits.MaxImagePixels] pixels.  The
+// result is at least 1.  Decode applies the same bound.
+func ccittMaxRows(columns int) int {
+	return max(1, min(limits.MaxImageHeight, limits.MaxImagePixels/max(columns, 1)))
 }
 
 func (f FilterCCITTFax) toParams() *ccittfax.Params {
@@ -1026,7 +1045,8 @@ func parseCCITTFax(d Dict) FilterCCITTFax {
 		res.Columns = int(val)
 	}
 	if val, ok := d["Rows"].(Integer); ok && val > 0 && val <= maxDim {
-		res.Rows = int(val)
+		// (Decode never delivers more rows than this)
+		res.Rows = min(int(val), ccittMaxRows(res.Columns))
 	}
 	if val, ok := d["EndOfBlock"].(Boolean); ok && !bool(val) {
 		res.IgnoreEndOfBlock = true
